@@ -14,7 +14,10 @@ import (
 var cmpOperands = []string{"", "0", "-0", "1", "-1", "+2", "2", ".5", "0.5", "-.5", "1e3", "1000", "-5", "-3", "-10", "-9", "10", "9", "010", "10.0",
 	"1.50", "1.5", "a", "A", "b", "B", "-a", "1a", "a1", "ann", "Ann", "-", "+", ".", "1.", "1 2",
 	// backslashes are ordinary characters (a string constant is raw text between the quotes)
-	`a\tb`, `a\\b`, `\x41`, `\u00e9`, `a\`}
+	`a\tb`, `a\\b`, `\x41`, `\u00e9`, `a\`,
+	// numbers at the edge of float64: infinities in the spellings strconv accepts, neighbours closer than any
+	// "tolerance" (a tolerant = would hold together with < or >)
+	"Inf", "-inf", "+Infinity", "0.3", "0.30000000000000004", "1e-10", "1e309"}
 
 func cmpDocText() string {
 	var sb strings.Builder
